@@ -479,3 +479,4 @@ def unit_counter_taint(twin=False):
 
 from props.c04_ext2 import UNITS as _U2; UNITS = UNITS + _U2
 from props.c04_ext3 import UNITS as _U3; UNITS = UNITS + _U3
+from props.c04_ext5 import UNITS as _U5; UNITS = UNITS + _U5
